@@ -57,7 +57,7 @@ def _expr_case(draw, depth, kind):
         if not tables:
             tables = [draw(gen.table_form("tab1", 14))]
     if kind == "regular0":
-        pd = draw(gen.potdef(depth, [], [], max_ranges=3, leaf_names=gen.REGULAR, allow_spline=False, allow_pow=False))
+        pd = draw(gen.potdef(depth, [], [], max_ranges=3, leaf_names=gen.REGULAR + ["exponential"], allow_spline=False, allow_pow=False))
     else:
         pd = draw(gen.potdef(depth, customs, tables, max_ranges=3, analytic_only=(kind in ("analytic", "table"))))
     if kind == "table" and not any(b["k"] == "table" for b in model.walk_simple(pd)):
